@@ -228,6 +228,11 @@ class Config:
 
     def label_sym(self, name, data, cols=("x1", "x2", "y")):
         s = Sym(name, "l", data, cols)
+        if s.rows >= 1:
+            # the row labels (DataFrame index) of a labelled sample carry no meaning for the protocol: a user passes table.iloc[[j]],
+            # so the label is whatever position the row had in its table — here 0, 1 or 2 depending on the configuration
+            j = len(self.ref_rows) % 3
+            s.frame.index = [j + i for i in range(s.rows)]
         if s.rows == 1 and len(cols) == 3 and set(cols) == set(COLS):
             d = dict(zip(cols, data[0]))
             s.sample = (float(d["x1"]), float(d["x2"]), int(d["y"]), tuple(c for c in cols if c != "y"))
